@@ -162,6 +162,78 @@ PROPS = {
             "statement is in Properties/C01.v",
         ],
     ),
+    "C09": dict(
+        prop_file="Properties/C09.v",
+        check_module="C09Check",
+        theorems={t: [] for t in [
+            "C09_sorted_permutation", "C09_sorted_ordered", "C09_sorted_stable", "C09_sort_order_is_strict_weak",
+            "C09_min_order_is_strict_weak", "C09_max_order_is_strict_weak", "C09_best_none", "C09_best_is_an_entry",
+            "C09_best_is_first_best", "C09_best_is_optimal", "C09_filter_is_filter", "C09_map_keys", "C09_map_nth",
+            "C09_any_some", "C09_any_none", "C09_to_array_keys", "C09_to_array_values",
+            "C09_native_sorted", "C09_native_min_max", "C09_native_to_array", "C09_native_passthrough",
+            "C09_sorted_by_key_contract", "C09_min_max_by_key_contract", "C09_sorts_agree", "C09_std_filter", "C09_std_map", "C09_std_any", "C09_std_inputs_unchanged",
+            "C09_std_to_array", "C09_std_sorted_by_key", "C09_std_min_max_by_key", "C09_row_to_value_pure",
+            "C09_std_sorted", "C09_std_min_max", "C09_std_passthrough",
+            "C09_tree_orderings_agree_on_samples"]},
+        n_quick=400, n_thorough=4000,
+        gen_timeout=3000,
+        gates=["fn.filter", "fn.map", "fn.any", "fn.min", "fn.max", "fn.min_by_key", "fn.max_by_key", "fn.sorted",
+               "fn.sorted_by_key", "fn.to_array", "size.0", "size.1", "size.2", "size.3-10", "size.11-40",
+               "val.int", "val.real", "val.string", "val.nil", "val.table", "key.int", "key.real", "key.string",
+               "key.nil", "dup_values", "ties", "mixed_int_real_equal", "nan_key", "negzero_key",
+               "cb.script_fn", "cb.closure_counter", "cb.allocates", "cb.nested_std", "cb.mutates_input",
+               "cb.arity1", "cb.arity2", "cb.arity3", "input.non_table", "input.host_built", "input.host_rooted",
+               "input.insert_value", "lowmem.host_rooted",
+               "stream.lowmem", "lowmem.ok", "lowmem.gc", "obs.ok", "predict", "spec_only"],
+        rule="one generated SCRIPT per case that calls ONE std function (filter, map, any, min, max, min_by_key, "
+             "max_by_key, sorted, sorted_by_key, to_array) ONCE on one input: tables of 0, 1, 2 .. 40 entries built by "
+             "the script or by the host (Vm::insert_value through a native), integer / real / string / nil keys, "
+             "integer / real (NaN, -0.0, infinities, 2^53+1 next to 2^53 as a real) / string / nil / nested-table "
+             "values from small pools (duplicates, ties, numerically equal keys of different kinds), non-table inputs; "
+             "callbacks from a menu of script functions of arity 1-3 (truthiness, comparisons, constants, arithmetic "
+             "keys, int-or-equal-real keys), closures that capture and count, callbacks that allocate strings and "
+             "tables, callbacks that call the library again, key functions that append to / pop from / overwrite the "
+             "input table (min/max/sorted_by_key only: the natives work on the entries present at call time); the "
+             "callback given to the library is a wrapper that calls the real one and logs arguments and result "
+             "through the native log1; the input is logged just before the call; result and input are read back as "
+             "owned trees after the run; every third script runs a second time under a 24-200 KiB memory limit "
+             "(collections inside the callbacks); every run in a child process (a crash is an observation). "
+             "Code 2: the result differs from StdSpec applied to the logged input with cb = the logged calls, or "
+             "the sequence of callback invocations is not 'every entry once, in table order' (any: up to the first "
+             "truthy one), or the input changed though the callback does not touch it, or the run crashed; "
+             "code 1: the whole run (kind, globals, log) differs from RefSem.eval_program (scripts with script-built "
+             "tables and callbacks that do not modify the input). Resource errors are skipped and counted. "
+             "non-trivial = input with >= 2 entries; distinct = distinct case term",
+        trusted_base=COMMON_TB + [
+            "the specification StdSpec.v is a hand-written reading of the documented contract of stdlib.rs "
+            "(sort_key_cmp for the order of sorted; < and > of the language, first strict best, for min / max)",
+            "the reference semantics RefSem.v (eval_native for __min/__max/__sort/__to_array; ForEach, DynamicCall, "
+            "SetProperty, Return for the card programs) and StdlibGen.std_module, the card text of std as printed by "
+            "the harness from cao_lang::stdlib::standard_library()",
+            "the tree orderings tr_cmp / tr_sort_lt of C09Check.v are a transcription of v_cmp / sort_lt to owned "
+            "trees (not proved equal to them); Coq's Floats.SpecFloat (SFcompare, SFeqb) and Z_cmp_sf of Value.v",
+            "the script protocol: the wrapper functions built by harness/src/c09.rs log every invocation (arguments, "
+            "result) through the native log1 and the checker reads the flat log back positionally",
+            "the harness printer from cao_lang::compiler::Module to CardAst terms (harness/src/c16.rs) and the "
+            "conversion of run-time values to trees (harness/src/c01.rs)",
+        ],
+        assumptions=[
+            "callbacks in the theorems are PURE: called with any arguments in any state they return the oracle's "
+            "value and leave heap, globals and host log unchanged (they may create variables and closures); the "
+            "check (cb = the logged calls) also covers callbacks with state, allocation and re-entry",
+            "theorems C09_std_* and C09_native_* are about the reference semantics and the card text of std; the "
+            "compiler and VM are tied to the reference semantics by C01's check and to the specification by this "
+            "check, not by a proof",
+            "ordered / stable / first-best are stated for comparisons that are strict weak orders on the keys that "
+            "occur: proved for sorted's order on all keys whose reals are valid binary64 values and for < / > on "
+            "numbers (non-NaN); min / max over keys that mix nil, strings and tables use a partial order and only "
+            "'an entry of the table, chosen as the first strict improvement' holds",
+            "table keys are nil, integers, strings and non-zero non-NaN reals; trees deeper than 6 levels are cut on "
+            "both sides; NaN payloads are not compared; function values compare as one opaque mark",
+            "key functions that modify the table being processed: the specification is applied to the entries "
+            "present at call time (behaviour since 662697a); RefSem is not consulted there",
+        ],
+    ),
     "C15": dict(
         prop_file="Properties/C15.v",
         check_module="C15Check",
